@@ -496,6 +496,84 @@ let run_e2e toks =
     lns_t (if !lns_dead then 0 else cnt 4 SB) (if lns_t = 0 then "-" else sq b)
     (if !lac_up then min 1 (cnt 5 SA) else 0) (if !lns_dead then 0 else min 1 (cnt 6 SB))
 
+(* multi <op>...  (see the dispatch harness): several control connections in one LNS.  Every connection is its own node
+   (channel) and its own conn_step state, keyed by (peer, peer's Assigned Tunnel ID); inbound messages are routed by
+   (source address, our local tunnel id).  Our local id is the implementation's free choice: it is read from the
+   implementation's token when the tunnel appears (and must then stay what it was). *)
+let run_multi toks impl =
+  let ips = [("A", "10.0.0.2"); ("B", "10.0.0.3"); ("C", "10.0.1.2"); ("D", "10.1.0.2"); ("E", "11.0.0.2")] in
+  let itoks = Array.of_list (match tokens impl with "multi" :: l -> l | l -> l) in
+  let conns = Hashtbl.create 8 in      (* (peer, aid) -> conn *)
+  let tuns = ref [] in                 (* (peer, aid, lid, node ref, sessions ref) *)
+  let next = Hashtbl.create 8 in
+  let data ns = { k_body = Some (zi 1); k_sid = Z0; k_ns = zi ns; k_nr = Z0 } in
+  let msg ns rm = { m_rc = head_choice; m_tid_ok = true; m_pkt = data ns; m_replies = []; m_removes = rm } in
+  let out = Buffer.create 256 in
+  let show () =
+    let l = List.map (fun (p, aid, lid, n, ss) ->
+        Printf.sprintf "%s/%d/%d:%d{%s}" (List.assoc p ips) aid lid (iz !n.n_ep.e_ch.c_nr)
+          (String.concat "," (List.map string_of_int (List.sort compare !ss)))) !tuns in
+    let l = List.sort compare l in
+    Buffer.add_string out ((if l = [] then "-" else String.concat ";" l) ^ " ") in
+  let impl_lid i p aid =      (* the local id the implementation gave to the tunnel of (p, aid), from its i-th token *)
+    if i < Array.length itoks then
+      List.fold_left (fun acc e ->
+          match String.split_on_char '/' e with
+          | [ip; a; rest] when ip = List.assoc p ips && a = string_of_int aid ->
+            (match String.split_on_char ':' rest with l :: _ -> (try ios l with _ -> acc) | _ -> acc)
+          | _ -> acc) 0 (String.split_on_char ';' itoks.(i))
+    else 0 in
+  let deliver (_, _, _, n, ss) kind ns sid =
+    let nr0 = !n.n_ep.e_ch.c_nr in
+    n := node_dispatch !n (msg ns (kind = "s")) Z0;
+    let accepted = !n.n_ep.e_ch.c_nr <> nr0 in
+    if accepted then (match kind with
+        | "i" -> let rec free k = if List.mem k !ss then free (k + 1) else k in ss := free 1 :: !ss
+        | "c" -> ss := List.filter (fun x -> x <> sid) !ss
+        | _ -> ());
+    accepted in
+  List.iteri (fun i op ->
+      (match String.split_on_char ':' op with
+       | kind :: p :: aid :: rest when List.mem_assoc p ips ->
+         let aid = ios aid in
+         let key = (p, aid) in
+         let st = try Hashtbl.find conns key with Not_found -> CNone in
+         let tun = List.find_opt (fun (p', a', _, _, _) -> p' = p && a' = aid) !tuns in
+         (match kind with
+          | "q" ->
+            let (st', opens) = conn_step true st CSccrq in
+            Hashtbl.replace conns key st';
+            (match tun with Some t when not opens -> ignore (deliver t "q" 0 0) | _ -> ());
+            if opens then begin
+              let n = ref { n_known = true; n_ep = new_endpoint Z0 Z0 Z0 Z0 (zi 16) Z0 Z0 } in
+              n := node_dispatch !n { (msg 0 false) with m_replies = [(zi 1, Z0)] } Z0;
+              tuns := !tuns @ [(p, aid, impl_lid i p aid, n, ref [])]
+            end;
+            if not (Hashtbl.mem next key) then Hashtbl.replace next key 1
+          | "h" | "i" | "s" | "c" | "w" ->
+            (match tun with
+             | None -> ()
+             | Some ((_, _, lid, _, _) as t) ->
+               let ns = try Hashtbl.find next key with Not_found -> 1 in
+               let sid = (match rest with x :: _ when kind = "c" -> ios x | _ -> 0) in
+               if kind = "w" then begin
+                 let src = (match rest with x :: _ -> x | [] -> p) in
+                 (match List.find_opt (fun (p', _, l', _, _) -> p' = src && l' = lid) !tuns with
+                  | Some t' -> ignore (deliver t' "h" ns 0)
+                  | None -> ())
+               end else begin
+                 let acc = deliver t kind ns sid in
+                 Hashtbl.replace next key (ns + 1);
+                 if acc && kind = "s" then begin
+                   tuns := List.filter (fun (p', a', _, _, _) -> not (p' = p && a' = aid)) !tuns;
+                   Hashtbl.replace conns key (fst (conn_step true st CTeardown))
+                 end
+               end)
+          | _ -> ())
+       | _ -> ());
+      show ()) toks;
+  "multi " ^ String.trim (Buffer.contents out)
+
 let () =
   let lines = read_lines Sys.argv.(1) in
   let impls = if Array.length Sys.argv > 2 && Sys.argv.(2) <> "-" then Array.of_list (read_lines Sys.argv.(2)) else [||] in
@@ -512,6 +590,7 @@ let () =
       | [] -> ()
       | "estab" :: rest -> print_endline (run_estab linger rest)
       | "e2e" :: rest -> print_endline (run_e2e rest)
+      | "multi" :: rest -> print_endline (run_multi rest (if !idx < Array.length impls then impls.(!idx) else ""))
       | "runner" :: rest -> print_endline (run_runner rest (if !idx < Array.length impls then impls.(!idx) else ""))
       | "pair" :: rest -> print_endline (run_pair zlb_recv rest (if !idx < Array.length impls then impls.(!idx) else ""))
       | "disp" :: rest -> print_endline (run_disp zlb_recv rest (if !idx < Array.length impls then impls.(!idx) else ""))
